@@ -141,6 +141,22 @@ func Split(x int64) int64    { return x }
 func SplitU(x uint64) uint64 { return x }
 func SplitInt(x int) int     { return x }
 
+// IteU64 is c ? a : b without a control-flow fork in the engine.
+func IteU64(c bool, a, b uint64) uint64 {
+	if c {
+		return a
+	}
+	return b
+}
+
+// IteI64 is c ? a : b without a control-flow fork in the engine.
+func IteI64(c bool, a, b int64) int64 {
+	if c {
+		return a
+	}
+	return b
+}
+
 // Stop ends the current path without verdict (outside the stated bound).
 func Stop(why string) { panic(StopPath{why}) }
 
